@@ -8,6 +8,7 @@ import CvDriver.C13
 import CvDriver.C19
 import CvDriver.C09
 import CvDriver.C10
+import CvDriver.C16
 open Drv
 
 structure DState where
@@ -16,6 +17,7 @@ structure DState where
   mod : ModSt := {}
   script : ScriptSt := {}
   outp : OutSt := {}
+  integ : IntSt := {}
 
 def stepLine (s : DState) (ln : Nat) (line : String) : DState × List String :=
   let t := toks line
@@ -39,6 +41,9 @@ def stepLine (s : DState) (ln : Nat) (line : String) : DState × List String :=
     | none =>
     match c10 ln t with
     | some o => (s, o)
+    | none =>
+    match c16 s.integ ln t with
+    | some (m, o) => ({ s with integ := m }, o)
     | none =>
     match c20 s.script ln t with
     | some (m, o) => ({ s with script := m }, o)
